@@ -14,7 +14,7 @@ RULE = ("random positive spectra of the admissible dimensionality with UNEQUAL a
         "then `stat`); every statistic named by the property before and after `fold --fill zero`; with the two monomorphic "
         "entries overwritten by arbitrary values; after swapping the two populations (transposed text); after scaling by "
         "c in {0.5, 3, 1000, 2^-20 (total below one)}. All values from `sfs stat --precision 15`, compared within 1e-9 relative. non-trivial = "
-        "statistic value non-zero; monomorphic entries overwritten by values of 1e17 .. 1e300")
+        "statistic value non-zero; monomorphic entries overwritten by values of 1e17 .. 1e300; swap invariance for spectra with an axis of length 1 or 2 (undefined stays undefined)")
 
 FOLD_INV = ["pi", "theta", "s", "d-tajima", "pi-xy", "f2", "f3", "f4", "fst", "king", "r0", "r1"]
 MONO_FREE = [s for s in STATS if s not in ("sum", "f2", "f3", "f4")]
@@ -127,6 +127,22 @@ def check(rep, tier, seed):
             sh2, d2 = transpose(sh, data)
             cases.append((st, sh2, d2)); expect.append((refv[(st, tuple(sh), tuple(data))], (st, sh, data)))
     compare("swap-populations", cases, expect)
+    # ... also where a population is a single chromosome (axis of length 2) or empty (length 1): a statistic that is undefined
+    # there (NaN) is undefined in both orientations, one that is defined has the same value
+    small = []
+    for st in ("f2", "fst", "pi-xy"):
+        for sh in ([2, 5], [2, 4], [3, 2], [2, 2], [1, 4], [2, 3], [6, 2]):
+            small.append((st, sh, [rng.randrange(1, 60) for _ in range(elements(sh))]))
+    sres = run_stats(small + [(st, ) + transpose(sh, data) for st, sh, data in small])
+    for k, (st, sh, data) in enumerate(small):
+        (rc1, v1, se1, so1), (rc2, v2, se2, so2) = sres[k], sres[len(small) + k]
+        rep.count("inv:swap-populations-degenerate", "%s on %s" % (st, fmt(sh)), v1 is not None and v1 == v1)
+        same = (rc1 == 0) == (rc2 == 0) and ((v1 is None and v2 is None) or (v1 is not None and v2 is not None and ((v1 != v1 and v2 != v2) or close(v1, v2) or v1 == v2)))
+        if not same:
+            rep.fail(kind="property-oracle", cls="inv:swap-populations:" + st, case="stat %s %s %s vs its transpose" % (st, fmt(sh), fmt(data)),
+                     argv=["sfs", "stat", "-s", st, "--precision", "15"], stdin=text_spectrum(sh, list(map(str, data))).decode(),
+                     observed={"as given": so1.decode(errors="replace").strip(), "populations swapped": so2.decode(errors="replace").strip()}, expected="the same value (or undefined in both orientations)",
+                     detail="%s differs between a spectrum with a one-chromosome / empty population and the same spectrum with the populations swapped" % st)
     # scaling
     cases, expect = [], []
     for st, sh, data in base:
